@@ -107,7 +107,10 @@ escalated run) pay for themselves; (6) the thorough tier is not a formality: it 
 SETUP / stream data race; (7) round 8 (`<id>-8`): trying a seeded change can uncover a defect of the UNCHANGED code (the multicast SETUP /
 stream-close panic, 075df01, was reported while C13-8 was tried and then reproduced on the clean tree) - every report is replayed on
 the clean tree before it is credited to the seed; handlers of the harness should do what applications do (an accessor of the
-session inside OnStreamWriteError exposed C13-8); four round-8 changes are still open and name the generator shapes of the next round.
+session inside OnStreamWriteError exposed C13-8); a listed finding's classifier must be as narrow as the finding (the classifier of
+`srtp-stale-roc-after-wrap` would have hidden C01-8 until it was restricted to readers set up before the wrap); small in-process or
+child-process stages beside the model-tied harness (tunnel half reset, redirect after SETUP, concurrent tunnel writers) are a cheap
+way to give a multi-step scenario an oracle when the model does not have the step yet.
 ''' % (len(rows), len([r for r in rows if r[2] in ('caught', 'caught-by-correspondence')]), len(after), ', '.join(after), ', '.join(miss) or 'none'))
     return '\n'.join(out)
 
